@@ -225,6 +225,17 @@ def check(ctx):
         ctx.check(bool(polls) and w is None, "C08.e", "runner:polls-after-every-run", R.loc(runs[0]) if runs else "",
                   "every path from callback.run to return passes the removal/despawn poll", "a run path of the runner returns without polling removals and despawns",
                   lib.render_path(R, w) if w else None)
+        # ... and after the finished system was put back (or dropped): reactions polled here may target that system, and
+        # dropping its callback may release signals whose despawns must be seen in this tree
+        inserts = lib.call_blocks(R, lib.ends(A.TABLE["storage_insert"]))
+        drops = [b for b, t, fr in R.iter_calls() if fr and lib.tail(mir.fn_name(fr), 2) == "mem::drop" and any(R.dominates(r, b) for r in runs)
+                 and any("SystemCommandCallback" in a for a in fr.get("args", []))]
+        starts = [lib.call_target(R, b) for b in inserts + drops]
+        w2 = lib.path_to_return_avoiding(R, starts, polls)
+        ctx.check(bool(starts) and w2 is None, "C08.e", "runner:polls-after-reinsertion", R.loc(inserts[0]) if inserts else "%s:%d" % (R.file, R.line),
+                  "every path from the re-insertion (or drop) of the callback to return passes the removal/despawn poll (%d+%d sites)" % (len(inserts), len(drops)),
+                  "the runner does not poll removals/despawns after the finished system was re-inserted or dropped: polled reactions run while the system still looks busy, "
+                  "and despawns caused by dropping its callback are missed in this tree", lib.render_path(R, w2) if w2 else None)
         # poll calls both schedulers then flushes
         sch = {}
         for bd in [poll] + prog.closures_of(poll):
